@@ -18,6 +18,9 @@ import (
 //	                             operands swapped (flush / window compaction keep the older value for last)
 //	memdb-miss-hides-files       a memory database that knows the metric but none of the filtered series fails the
 //	                             whole family filter, the family's files are not read
+//	write-buffer-end-shrinks     a write of a NEW slot inside the memdb write window sets the buffer's end marker to that
+//	                             slot even when later slots are already present: they become invisible to queries,
+//	                             window compaction and flush (second instance of this model, endBug = true)
 //
 // A disagreement that this model does not reproduce exactly keeps the clause result-differs.
 
@@ -63,6 +66,21 @@ type aseries struct {
 	compress map[int64]avals // slot start (relative ms) -> values
 	buf      map[int64]avals
 	start    int64 // first slot index of the write window
+	end      int64 // end marker of the write buffer (delta to start)
+}
+
+// visible returns the cells of the write buffer a reader sees.
+func (s *aseries) visible(endBug bool) map[int64]avals {
+	if !endBug {
+		return s.buf
+	}
+	out := map[int64]avals{}
+	for t, v := range s.buf {
+		if (t%familyMs)/slotMs <= s.start+s.end {
+			out[t] = v
+		}
+	}
+	return out
 }
 
 type afam struct {
@@ -74,11 +92,12 @@ type afam struct {
 type altModel struct {
 	fams        [2]afam
 	sinceReopen map[string]bool
+	endBug      bool // also mirror write-buffer-end-shrinks
 }
 
 const memWindow = 15 // (pageSize 128 - header 8) / 8 slots per series/field write buffer
 
-func newAlt() *altModel { return &altModel{sinceReopen: map[string]bool{}} }
+func newAlt(endBug bool) *altModel { return &altModel{sinceReopen: map[string]bool{}, endBug: endBug} }
 
 func (m *altModel) write(series string, t int64, v float64) {
 	f := &m.fams[t/familyMs]
@@ -101,19 +120,22 @@ func (m *altModel) write(series string, t int64, v float64) {
 	}
 	switch {
 	case len(s.buf) == 0:
-		s.start = slot
+		s.start, s.end = slot, 0
 		s.buf[t] = newVals(v)
 	case slot < s.start || slot > s.start+memWindow-1:
-		for bt, bv := range s.buf {
+		for bt, bv := range s.visible(m.endBug) {
 			s.compress[bt] = mergeVals(bv, s.compress[bt])
 		}
 		s.buf = map[int64]avals{t: newVals(v)}
-		s.start = slot
+		s.start, s.end = slot, 0
 	default:
 		if c := s.buf[t]; c != nil {
 			c.inWindow(v)
 		} else {
 			s.buf[t] = newVals(v)
+			if m.endBug || slot-s.start > s.end {
+				s.end = slot - s.start
+			}
 		}
 	}
 }
@@ -129,7 +151,7 @@ func (m *altModel) flush() {
 			for t, v := range s.compress {
 				p.cells[ckey{name, t}] = v
 			}
-			for t, v := range s.buf {
+			for t, v := range s.visible(m.endBug) {
 				k := ckey{name, t}
 				p.cells[k] = mergeVals(v, p.cells[k])
 			}
@@ -230,7 +252,7 @@ func (m *altModel) eval(q Query) map[string]vset {
 				}
 				addPlace(c)
 				b := map[ckey]avals{}
-				for t, v := range s.buf {
+				for t, v := range s.visible(m.endBug) {
 					b[ckey{name, t}] = v
 				}
 				addPlace(b)
